@@ -94,10 +94,11 @@ func (t *tree) doRemove(
 		}
 
 		// Fetch and check the remaining children.
-		var remainingLeaf node.Node
-		if n.LeafNode != nil {
-			// NOTE: The leaf node is always included with the internal node.
-			remainingLeaf = n.LeafNode.Node
+		// NOTE: The leaf node is included with the internal node when it is fetched, but it
+		//       may have been evicted from the cache since (e.g. while descending).
+		remainingLeaf, err := t.cache.derefNodePtr(ctx, n.LeafNode, t.newFetcherSyncGet(key, true))
+		if err != nil {
+			return nil, false, nil, err
 		}
 		remainingLeft, err := t.cache.derefNodePtr(ctx, n.Left, t.newFetcherSyncGet(key, true))
 		if err != nil {
